@@ -2265,6 +2265,22 @@ func listStyleType(tokens []Token, _ string) pr.CssProperty {
 	return nil
 }
 
+// Names of the counter styles defined in css-counter-styles-3.
+var predefinedCounterStyles = utils.NewSet(
+	"decimal", "decimal-leading-zero", "arabic-indic", "armenian", "upper-armenian",
+	"lower-armenian", "bengali", "cambodian", "khmer", "cjk-decimal", "devanagari",
+	"georgian", "gujarati", "gurmukhi", "hebrew", "kannada", "lao", "malayalam",
+	"mongolian", "myanmar", "oriya", "persian", "lower-roman", "upper-roman", "tamil",
+	"telugu", "thai", "tibetan", "lower-alpha", "lower-latin", "upper-alpha",
+	"upper-latin", "lower-greek", "hiragana", "hiragana-iroha", "katakana",
+	"katakana-iroha", "disc", "circle", "square", "disclosure-open",
+	"disclosure-closed", "cjk-earthly-branch", "cjk-heavenly-stem",
+	"japanese-informal", "japanese-formal", "korean-hangul-formal",
+	"korean-hanja-informal", "korean-hanja-formal", "simp-chinese-informal",
+	"simp-chinese-formal", "trad-chinese-informal", "trad-chinese-formal",
+	"cjk-ideographic", "ethiopic-numeric",
+)
+
 func listStyleType_(tokens []Token) (out pr.CounterStyleID, ok bool) {
 	if len(tokens) != 1 {
 		return out, false
@@ -2272,7 +2288,14 @@ func listStyleType_(tokens []Token) (out pr.CounterStyleID, ok bool) {
 	token := tokens[0]
 	switch token := token.(type) {
 	case pa.Ident:
-		return pr.CounterStyleID{Name: string(token.Value)}, true
+		// Counter style names are case-sensitive, but none and the names defined
+		// in the specification are ASCII lower-cased on parse.
+		// See https://www.w3.org/TR/css-counter-styles-3/#typedef-counter-style-name
+		name := string(token.Value)
+		if lower := utils.AsciiLower(name); lower == "none" || predefinedCounterStyles.Has(lower) {
+			name = lower
+		}
+		return pr.CounterStyleID{Name: name}, true
 	case pa.String:
 		return pr.CounterStyleID{Type: "string", Name: token.Value}, true
 	case pa.FunctionBlock:
